@@ -53,6 +53,7 @@ type runner struct {
 	rogueCase  bool
 	noHSCase   bool
 	lastQueued string
+	execT      int64 // the latest time stamp an executed op carried
 }
 
 func newRunner(r *vh.Rand) vh.Runner {
@@ -213,7 +214,8 @@ func (rn *runner) suffix(tail string) string {
 	lim, alarm := 0, 0
 	var cs, cr uint64
 	if rn.h != nil {
-		if ackhandler.VerifAmpLimited(rn.h) {
+		// observed through the exported interface: SendMode answers SendNone (a case has < 1000 SentPacket calls, MaxTrackedSentPackets is 25000)
+		if ackhandler.VerifAmpLimited(rn.h, monotime.Time(rn.execT)) {
 			lim = 1
 		}
 		if !rn.h.GetLossDetectionTimeout().IsZero() {
@@ -247,6 +249,11 @@ func (rn *runner) Exec(op string) string {
 	}
 	if rn.h == nil {
 		return "skip" + rn.suffix("")
+	}
+	if i, ok := map[string]int{"rcvbytes": 2, "rcvpkt": 2, "mode?": 1, "send": 3, "timeout": 1, "ack": 2, "drop": 2}[f[0]]; ok && len(f) > i {
+		if t := vh.Atoi64(f[i]); t > rn.execT {
+			rn.execT = t
+		}
 	}
 	switch f[0] {
 	case "rcvbytes":
